@@ -164,7 +164,8 @@ func drawC07(t *rapid.T) *c07Case {
 	}
 	c.schedule = rapid.SliceOfN(rapid.IntRange(0, 7), 1, 24).Draw(t, "schedule")
 	// 5.x: RESTORE ... REPLACE; 6.x: the tool's rule turns REPLACE off, rewrite becomes DEL + RESTORE
-	c.tk = rapid.SampledFrom([]targetKind{targetKinds[3], targetKinds[3], targetKinds[5]}).Draw(t, "target")
+	// 3.2 / 4.0 targets reject the newer value encodings ("Bad data format": the tool falls back to writing the elements)
+	c.tk = rapid.SampledFrom([]targetKind{targetKinds[3], targetKinds[3], targetKinds[5], targetKinds[1], targetKinds[2]}).Draw(t, "target")
 	if rapid.IntRange(0, 59).Draw(t, "unreachableTarget") == 31 {
 		c.unreachable = true
 	}
